@@ -293,9 +293,10 @@ def _bfs_shard(arg):
     st = Stats()
     errs = lib_errors()
     roles = _roles()
-    for mix, v2, serving in seeds:
+    for mix, v2, serving, *rest in seeds:
+        required = rest[0] if rest else None
         with backend(serving):
-            init, prevouts = PC.build(mix, 1, seq=5, lock=500, v2=v2)
+            init, prevouts = PC.build(mix, 1, seq=5, lock=500, v2=v2, required=required)
             txid0, uid0 = init.tx.id, init.unique_id
             seen = {init.serialize(): []}
             frontier = collections.deque([[]])
@@ -352,7 +353,7 @@ def _bfs_shard(arg):
                         seen[ser] = hist + [r]
                         frontier.append(hist + [r])
             st.states += len(seen)
-            st.outcomes[("states", mix, v2)] = len(seen)
+            st.outcomes[("states", mix, v2, str(required))] = len(seen)
     return st
 
 
@@ -365,6 +366,11 @@ def role_sequences(ctx):
                 if serving is False and v2:
                     continue
                 seeds.append((mix, v2, serving))
+    # version 2 psbts whose inputs require a lock time of their own: time only, height only, both, one of each
+    for req in ([(1_700_000_000, None)], [(None, 600)], [(1_700_000_000, 600)]):
+        seeds.append((("wpkh",), True, True, req))
+    seeds.append((("wpkh", "tr-key"), True, True, [(1_700_000_000, None), (1_600_000_000, None)]))
+    seeds.append((("wsh-multi-2signers", "pkh"), True, True, [(None, 600), (1_700_000_000, 700)]))
     st = ctx.pmap(_bfs_shard, [([s], depth) for s in seeds])
     st.notes["depth"] = depth
     st.notes["roles"] = list(_roles())
